@@ -3,6 +3,11 @@ From Coq Require Import ZArith NArith List.
 From Verif Require Import Base.Check Model.Nat Model.NatSpec.
 Import ListNotations.
 
+(* short constructor names for the case files (record notation is slow to elaborate) *)
+Definition av := Build_aview.
+Definition mo := Build_out.
+Definition co := Build_concobs.
+
 (* raw ManagerConfig ints (PortsPerSubscriber, PortRangeStart, PortRangeEnd), log mode, trace *)
 Definition case := (Z * Z * Z * logmode * list (op * out))%type.
 Definition mk (c : case) : state * sstate * list (op * out) :=
